@@ -199,7 +199,7 @@ def one_class(ctx, cspec):
     check_ir(ctx, base, replay, spec, ir, sig_names, "class_merge", cvars=tuple(cspec.cvars))
 
 
-def in_memory(ctx, specs, tmpdir):
+def in_memory(ctx, specs, tmpdir, cspecs=()):
     """Write generated definitions to a scratch module, import it, parse the live objects."""
     from doctrans import parse
 
@@ -207,6 +207,8 @@ def in_memory(ctx, specs, tmpdir):
     header = "from typing import *\nimport json\n\nclass _S(type):\n    def __call__(c,*a,**k): return None\n    def __getattr__(c,n):\n        if n.startswith('__'): raise AttributeError(n)\n        return _S(n,(),{})\nnp=_S('np',(),{})\ntf=_S('tf',(),{})\ntorch=_S('torch',(),{})\npathlib=_S('pathlib',(),{})\ndef make_thing(*a): return None\n\n"
     static = [s for s in specs if s.kind == "static"]
     src = header + "\n\n".join(s.src.replace("def f_target(", "def f_target_{}(".format(i)) for i, s in enumerate(static))
+    for j, c in enumerate(cspecs):
+        src += "\n\n" + c.src.replace("class {}(".format(c.name), "class {}_{}(".format(c.name, j), 1)
     with open(os.path.join(tmpdir, modname + ".py"), "w") as f:
         f.write(src)
     sys.path.insert(0, tmpdir)
@@ -227,6 +229,22 @@ def in_memory(ctx, specs, tmpdir):
             ctx.event("parse.function.in_memory")
             sig_names = list(inspect.signature(fn).parameters)
             check_ir(ctx, base, replay, s, ir, sig_names, "memory")
+        for j, c in enumerate(cspecs):
+            cls = getattr(mod, "{}_{}".format(c.name, j))
+            spec = c.init
+            base = {"op": OP, "kind": "class_init", "via": "memory", "fn_kind": "self", "doc_style": spec.style, "doc_mode": spec.doc_mode,
+                    "doc_order": spec.order, "has_doc": spec.has_doc, "partial_pos_defaults": _partial(spec),
+                    "some_doc_states_default": any(p.get("doc_states_default") for p in spec.params)}
+            replay = {"src": c.src, "via": "memory_class"}
+            ctx.case(spec_sig(spec) + ("memory_class",), nontrivial=bool(spec.params))
+            try:
+                ir = parse.class_(cls, merge_inner_function="__init__")
+            except Exception as e:
+                ctx.report_exception(e, base, replay, stage="parse")
+                continue
+            ctx.event("parse.class_.in_memory")
+            sig_names = [n for n in inspect.signature(cls.__init__).parameters if n not in ("self", "cls")]
+            check_ir(ctx, base, replay, spec, ir, sig_names, "memory", cvars=tuple(c.cvars))
     finally:
         sys.path.remove(tmpdir)
         sys.modules.pop(modname, None)
@@ -271,7 +289,7 @@ def run(ctx):
     ctx.require("signature_observed", 50)
     ctx.require("hash_seed_digests_compared", 50)
     n = ctx.n(800, 24000)
-    mem_batch = []
+    mem_batch, mem_classes = [], []
     tmpdir = tempfile.mkdtemp(prefix="dtverif-c07-")
     try:
         for i in range(n):
@@ -290,13 +308,14 @@ def run(ctx):
                 cspec = gen_class_with_init(ctx.rng)
                 ctx.case(spec_sig(cspec.init) + ("class",), nontrivial=bool(cspec.init.params))
                 one_class(ctx, cspec)
+                mem_classes.append(cspec)
             if not ctx.quick() or i % 4 == 0:
                 mem_batch.append(spec)
             if len(mem_batch) >= 40:
-                in_memory(ctx, mem_batch, tmpdir)
-                mem_batch = []
-        if mem_batch:
-            in_memory(ctx, mem_batch, tmpdir)
+                in_memory(ctx, mem_batch, tmpdir, mem_classes)
+                mem_batch, mem_classes = [], []
+        if mem_batch or mem_classes:
+            in_memory(ctx, mem_batch, tmpdir, mem_classes)
     finally:
         shutil.rmtree(tmpdir, ignore_errors=True)
     if ctx.shard[0] == 0:
